@@ -1,5 +1,6 @@
 mod util;
 mod fees;
+mod numeric;
 
 fn main() {
     let argv: Vec<String> = std::env::args().collect();
@@ -11,6 +12,7 @@ fn main() {
     let a = util::parse_args(&argv[2..]);
     match argv[1].as_str() {
         "fees" => fees::main(&a),
+        "numeric" => numeric::main(&a),
         d => {
             eprintln!("unknown driver {}", d);
             std::process::exit(2);
